@@ -17,7 +17,9 @@ import (
 	"crypto/ed25519"
 	"encoding/base64"
 	"encoding/json"
+	"sort"
 	"strconv"
+	"strings"
 
 	gmsl "github.com/matrix-org/gomatrixserverlib"
 	"github.com/matrix-org/gomatrixserverlib/spec"
@@ -87,6 +89,98 @@ func execNeeded(args []string) string {
 	}
 	return coarse(gmsl.Allowed(ev, full, StdQuerier)) + "," + coarse(gmsl.Allowed(ev, shuffled, StdQuerier)) + "," +
 		coarse(gmsl.Allowed(ev, restricted, StdQuerier))
+}
+
+// ctx.addauth <ver> <sig3pid> <event> <auth event>* — C09's last sentence on the REAL code: EventBuilder.AddAuthEvents
+// (StateNeededForProtoEvent + AuthEventReferences + the create-stripping branch of room versions with domainless room
+// IDs) selects the auth events of a new event that has the given event's type / sender / state key / content; answers
+//
+//	<Allowed on the full provider>,<Allowed on a provider holding EXACTLY the selected references>,<hex of the references>
+//
+// (in a version with domainless room IDs the create event is not listed: it is named by the room ID, and is handed to the
+// second check when the provider's create event is that event).  "builderr" when AddAuthEvents itself fails (the
+// generator emits the op only when it succeeds).
+func execAddAuth(args []string) string {
+	ver := args[0]
+	ev, err := parseEvArg(ver, args[2])
+	if err != nil {
+		return "err:construct"
+	}
+	var auth []gmsl.PDU
+	for _, a := range args[3:] {
+		e, err := parseEvArg(ver, a)
+		if err != nil {
+			return "err:construct"
+		}
+		auth = append(auth, e)
+	}
+	full, err := gmsl.NewAuthEvents(auth)
+	if err != nil {
+		return "err:provider"
+	}
+	refs, sel, ok := addAuthSelection(ver, ev, auth, full)
+	if !ok {
+		return "builderr"
+	}
+	selP, err := gmsl.NewAuthEvents(sel)
+	if err != nil {
+		return "err:provider"
+	}
+	// the references as a set (AuthEventReferences lists members in sorted order, once each)
+	set := append([]string{}, refs...)
+	sort.Strings(set)
+	uniq := set[:0]
+	for i, id := range set {
+		if i == 0 || id != set[i-1] {
+			uniq = append(uniq, id)
+		}
+	}
+	return coarse(gmsl.Allowed(ev, full, StdQuerier)) + "," + coarse(gmsl.Allowed(ev, selP, StdQuerier)) + "," + hx([]byte(strings.Join(uniq, ",")))
+}
+
+// addAuthSelection runs the real AddAuthEvents for a new event shaped like ev against provider full (built from auth).
+func addAuthSelection(ver string, ev gmsl.PDU, auth []gmsl.PDU, full *gmsl.AuthEvents) (refs []string, sel []gmsl.PDU, ok bool) {
+	verImpl := gmsl.MustGetRoomVersion(gmsl.RoomVersion(ver))
+	eb := verImpl.NewEventBuilderFromProtoEvent(&gmsl.ProtoEvent{
+		SenderID: string(ev.SenderID()), RoomID: ev.RoomID().String(), Type: ev.Type(), StateKey: ev.StateKey(), Content: ev.Content(),
+	})
+	if err := eb.AddAuthEvents(full); err != nil {
+		return nil, nil, false
+	}
+	refs, _ = eb.AuthEvents.([]string)
+	// the events the references stand for: the provider's own events (event IDs of format-1 versions are free text and may
+	// repeat across rooms, so an ID alone does not name an event of the list)
+	inRefs := map[string]bool{}
+	for _, id := range refs {
+		inRefs[id] = true
+	}
+	for _, e := range auth {
+		if e.StateKey() == nil || !inRefs[e.EventID()] {
+			continue
+		}
+		var held gmsl.PDU
+		switch e.Type() {
+		case spec.MRoomCreate:
+			held, _ = full.Create()
+		case spec.MRoomJoinRules:
+			held, _ = full.JoinRules()
+		case spec.MRoomPowerLevels:
+			held, _ = full.PowerLevels()
+		case spec.MRoomMember:
+			held, _ = full.Member(spec.SenderID(*e.StateKey()))
+		case spec.MRoomThirdPartyInvite:
+			held, _ = full.ThirdPartyInvite(*e.StateKey())
+		}
+		if held == e && (e.Type() == spec.MRoomMember || e.Type() == spec.MRoomThirdPartyInvite || *e.StateKey() == "") {
+			sel = append(sel, e)
+		}
+	}
+	if verImpl.DomainlessRoomIDs() {
+		if c, _ := full.Create(); c != nil && len(ev.RoomID().String()) > 0 && c.EventID() == "$"+ev.RoomID().String()[1:] {
+			sel = append(sel, c)
+		}
+	}
+	return refs, sel, true
 }
 
 // unrelatedEvents: same-room state events whose (type, state_key) no check of the generated scenarios needs.
@@ -162,6 +256,7 @@ func genAuthNeeded(o *Out, tier string, r *Rng) {
 		neededWitnesses(o, r)
 		return
 	}
+	neededCaseVariants(o, r)
 	n := 1500
 	if tier == "thorough" {
 		n = 30000
@@ -175,6 +270,75 @@ func genAuthNeeded(o *Out, tier string, r *Rng) {
 		// (the 2 % of scenarios with an auth event from another room stay in: the driver answers `unspecified` for them)
 		res := o.Do("needed", neededArgs(s, unrelatedEvents(s.G, r))...)
 		o.Count("needed." + s.Label + "." + res)
+		// the same scenario through the real EventBuilder.AddAuthEvents (when it can select at all)
+		auth := distinctKeys(s.Auth)
+		var pdus []gmsl.PDU
+		for _, a := range auth {
+			pdus = append(pdus, a.PDU)
+		}
+		if full, err := gmsl.NewAuthEvents(pdus); err == nil {
+			if _, _, ok := addAuthSelection(ver, s.Event.PDU, pdus, full); ok {
+				sig := "0"
+				if s.Sig3pid {
+					sig = "1"
+				}
+				args := []string{ver, sig, s.Event.Arg()}
+				for _, a := range auth {
+					args = append(args, a.Arg())
+				}
+				res := o.Do("addauth", args...)
+				if i := strings.LastIndexByte(res, ','); i >= 0 {
+					res = res[:i]
+				}
+				o.Count("addauth." + s.Label + "." + res)
+			} else {
+				o.Count("addauth.builder-refused." + s.Label)
+			}
+		}
+	}
+}
+
+// neededCaseVariants: member events under test whose content spells `membership` / `join_authorised_via_users_server`
+// in another letter case, in rooms where the verdict hangs on exactly the state those keys make StateNeededForAuth name
+// (the join rules for a join; the authorising user's membership for a restricted join).  encoding/json folds case when
+// the auth check decodes the content, so StateNeededForAuth has to name the same state (seeded change C09-r4m2: it read
+// the keys exactly, the restricted provider lost the join rules and the verdict changed).
+func neededCaseVariants(o *Out, r *Rng) {
+	cr := authUsers[0]
+	for _, ver := range allVersions {
+		verImpl := gmsl.MustGetRoomVersion(gmsl.RoomVersion(ver))
+		for _, key := range []string{"Membership", "MEMBERSHIP", "membershiP"} {
+			g := NewRoomGen(r, ver)
+			cc := map[string]interface{}{"room_version": ver}
+			if !verImpl.PrivilegedCreators() {
+				cc["creator"] = cr
+			}
+			create := g.MkCreate(cr, cc)
+			if create == nil {
+				continue
+			}
+			users := map[string]interface{}{"@auth:hs1": 50}
+			if !verImpl.PrivilegedCreators() {
+				users[cr] = 100
+			}
+			pl := g.Mk(spec.MRoomPowerLevels, cr, sp(""), map[string]interface{}{"users": users, "invite": 50}, nil, nil, nil)
+			// (a) a join in a public room
+			jr := g.Mk(spec.MRoomJoinRules, cr, sp(""), map[string]interface{}{"join_rule": "public"}, nil, nil, nil)
+			join := g.Mk(spec.MRoomMember, "@alice:hs1", sp("@alice:hs1"), map[string]interface{}{key: "join"}, []string{"$p:hs1"}, nil, nil)
+			if jr != nil && pl != nil && join != nil {
+				s := &AuthScenario{G: g, Auth: []*Ev{create, pl, jr, memberEv(g, cr, "join")}, Event: join}
+				o.Count("needed.casevariant.public." + o.Do("needed", neededArgs(s, unrelatedEvents(g, r))...))
+			}
+			// (b) a restricted join authorised by a joined user with the power to invite
+			rj := g.Mk(spec.MRoomJoinRules, cr, sp(""), map[string]interface{}{"join_rule": "restricted",
+				"allow": []map[string]interface{}{{"type": "m.room_membership", "room_id": "!other:hs1"}}}, nil, nil, nil)
+			akey := Pick(r, []string{"Join_authorised_via_users_server", "JOIN_AUTHORISED_VIA_USERS_SERVER", "join_authorised_via_users_server"})
+			rjoin := g.Mk(spec.MRoomMember, "@alice:hs1", sp("@alice:hs1"), map[string]interface{}{key: "join", akey: "@auth:hs1"}, []string{"$p:hs1"}, nil, nil)
+			if rj != nil && pl != nil && rjoin != nil {
+				s := &AuthScenario{G: g, Auth: []*Ev{create, pl, rj, memberEv(g, "@auth:hs1", "join")}, Event: rjoin}
+				o.Count("needed.casevariant.restricted." + o.Do("needed", neededArgs(s, unrelatedEvents(g, r))...))
+			}
+		}
 	}
 }
 
